@@ -101,6 +101,17 @@ func init() {
 		id := st.alloc(&ArrV{e})
 		return ret1(st, SliceV{obj: id, len: n, cap: n})
 	})
+	reg("vBytesIn", func(w *Worker, st *State, args []Value, fv *FuncV, depth int) []Outcome {
+		name := concStr(args[0], "vBytesIn name")
+		n := int(concInt(args[1], "vBytesIn n"))
+		lo, hi := concInt(args[2], "lo"), concInt(args[3], "hi")
+		e := make([]Value, n)
+		for i := range e {
+			e[i] = w.freshInt(st, fmt.Sprintf("%s[%d]", name, i), lo, hi)
+		}
+		id := st.alloc(&ArrV{e})
+		return ret1(st, SliceV{obj: id, len: n, cap: n})
+	})
 	reg("vChoice", func(w *Worker, st *State, args []Value, fv *FuncV, depth int) []Outcome {
 		name := w.uniqueName(st, concStr(args[0], "vChoice name"))
 		n := int(concInt(args[1], "vChoice n"))
